@@ -17,3 +17,24 @@ package streamwriter
 //@   ensures  verdict: result == nil ==> serverVerdict(w.stream) == nil && world.closed[w.stream]
 //@   ensures  failed:  result != nil ==> world.closed[w.stream] == old(world.closed[w.stream]) || serverVerdict(w.stream) != nil
 //@   ensures  others:  forall s any :: s != w.stream ==> world.closed[s] == old(world.closed[s])
+
+// The request constructor handed to New wraps a chunk into a message and changes nothing (assumed of the
+// callers' closures: pkg/external/db builds a proto message around the slice).
+//@ iface writer.req
+//@   trusted
+//@   params p
+
+// Write accepts all of p or fails, and leaves less than one chunk buffered (everything else was sent).  The
+// buffer is seen through its length only (bytes.Buffer.blen); that the chunks sent are the bytes written, in
+// order, rests on the trusted contracts of bytes.Buffer.Write/Read (a FIFO of bytes that copies what it is
+// given) -- which is why the buffer must not be built over the caller's slice (bytes.NewBuffer takes ownership
+// of its argument, stdlib.spec).
+//@ func (*writer).Write
+//@   requires wf:      w != nil && w.stream != nil && w.chunkSize > 0 && w.buf.blen >= 0
+//@   modifies bytes.Buffer.blen, mem[uint8]
+//@   ensures  all:     result1 == nil ==> result0 == len(p)
+//@   ensures  flushed: result1 == nil ==> w.buf.blen < w.chunkSize
+//@   ensures  failed:  result1 != nil ==> result0 == 0
+//@ loop (*writer).Write#1
+//@   invariant len: w.buf.blen >= 0
+//@   decreases w.buf.blen
